@@ -86,6 +86,20 @@ def c06_b(ctx: Ctx):
             out.append(ctx.ok(R, None, None, f"documented operator {o} is dispatched", construct=k))
         else:
             out.append(ctx.viol(R, fe, fe.node, f"documented operator {o} is neither in _INDEX_OPERATORS nor handled by _find_expression: filters using it raise KeyError", construct=k))
+    own = common.str_consts_compared(body_nodes(fe), "op") & ops
+    if own:
+        out.append(ctx.viol(R, fe, fe.node, f"_find_expression answers {sorted(own)} itself instead of dispatching it to _find_with_index_operator: that evaluator is the only place where the "
+                            "operator's predicate is applied to every key of the typed index (look-ups by candidate miss equal values of the other numeric type: 1 vs 1.0)",
+                            construct=fe.qual + "|own-operators"))
+    else:
+        out.append(ctx.ok(R, fe, fe.node, "every index operator is dispatched to _find_with_index_operator", construct=fe.qual + "|own-operators"))
+    disp = [c for c in body_nodes(fe) if isinstance(c, ast.Call) and (IDX + ":_find_with_index_operator") in common.targets_of(ctx, fe, c)]
+    for c in disp:
+        a = [canon(x) for x in c.args]
+        if a == ["index", "op", "value"]:
+            out.append(ctx.ok(R, fe, c, "dispatch passes (index, op, value) unchanged"))
+        else:
+            out.append(ctx.inc(R, fe, c, f"dispatch arguments {a}"))
     f = ctx.fn(IDX + ":_find_with_index_operator")
     branches = common.str_consts_compared(body_nodes(f), "op")
     rename = {}
@@ -420,4 +434,14 @@ def c06_i(ctx: Ctx):
     return sentinel_discipline(ctx, "C06-i", [("signac._utility:_nested_dicts_to_dotted_keys", "key", "the empty string is a legal key: treated as 'no parent' the keys below it are flattened without their prefix and collide with top-level keys")])
 
 
-RULES = [c06_a, c06_b, c06_c, c06_d, c06_e, c06_f, c06_g, c06_h, c06_i]
+@rule("C06-j")
+def c06_j(ctx: Ctx):
+    """Namespace prefixing decides by whole key components (same obligation as the _add_prefix part of C07-b)."""
+    from .c07 import c07_b
+    res = [r for r in c07_b(ctx) if r.function.endswith(":_add_prefix")]
+    for r in res:
+        r.rule = "C06-j"
+    return res
+
+
+RULES = [c06_a, c06_b, c06_c, c06_d, c06_e, c06_f, c06_g, c06_h, c06_i, c06_j]
